@@ -47,6 +47,10 @@ pub struct Case {
     /// HTTP/3 client (quiche) against the real QUIC listener; `h2` is then ignored
     #[serde(default)]
     pub h3: bool,
+    /// every interim head ends a delivery (further cuts may fall inside the interim heads): the
+    /// known finding "bytes after a 1xx head in the same delivery" is then not in play
+    #[serde(default)]
+    pub cut_after_interims: bool,
 }
 
 fn body_bytes(n: usize) -> Vec<u8> {
@@ -117,6 +121,38 @@ impl Case {
     }
 }
 
+impl Case {
+    /// offsets in the origin's byte stream at which the interim heads end
+    fn interim_ends(&self) -> Vec<usize> {
+        let mut v = vec![];
+        let mut off = 0;
+        for i in &self.interim {
+            off += format!("HTTP/1.1 {} Interim\r\nX-Interim: {}\r\n\r\n", i, i).len();
+            v.push(off);
+        }
+        v
+    }
+
+    /// the delivery positions of the origin stream
+    fn delivery_cuts(&self, len: usize) -> Vec<usize> {
+        let mut cuts: Vec<usize> = self.cuts.iter().map(|p| 1 + idx(*p, len.saturating_sub(1))).filter(|x| *x < len).collect();
+        if self.cut_after_interims {
+            cuts.extend(self.interim_ends().into_iter().filter(|x| *x < len));
+        }
+        cuts.sort();
+        cuts.dedup();
+        cuts.push(len);
+        cuts
+    }
+
+    /// does some delivery carry the end of an interim head together with later bytes?
+    fn bytes_follow_an_interim_head(&self) -> bool {
+        let (origin_bytes, _) = self.origin_stream();
+        let cuts = self.delivery_cuts(origin_bytes.len());
+        self.interim_ends().iter().any(|e| !cuts.contains(e))
+    }
+}
+
 /// Reference de-chunker. None = malformed / incomplete.
 pub fn dechunk(mut b: &[u8]) -> Option<Vec<u8>> {
     let mut out = vec![];
@@ -184,10 +220,7 @@ async fn run_case(c: &Case) -> Result<Seen, Violation> {
     };
     let auth = format!("Basic {}", b64("user:pass"));
     let (origin_bytes, _) = c.origin_stream();
-    let mut cuts: Vec<usize> = c.cuts.iter().map(|p| 1 + idx(*p, origin_bytes.len().saturating_sub(1))).filter(|x| *x < origin_bytes.len()).collect();
-    cuts.sort();
-    cuts.dedup();
-    cuts.push(origin_bytes.len());
+    let cuts = c.delivery_cuts(origin_bytes.len());
     let mut seen = Seen {
         origin_request: vec![],
         connects: vec![],
@@ -506,7 +539,7 @@ fn judge(c: &Case, s: &Seen) -> Verdict {
     }
     // ---- response as seen by the client
     judge_response(c, s, &what).map_err(|mut v| {
-        if !c.interim.is_empty() {
+        if !c.interim.is_empty() && c.bytes_follow_an_interim_head() {
             // one root cause: bytes following an interim head in the same delivery are handed back
             // as "unsent" while the sink still waits for a response (and the HTTP/1.1 response queue
             // holds one head at a time)
@@ -570,7 +603,7 @@ impl Suite for ForwardSuite {
         "forwarded-exchange"
     }
     fn rule(&self) -> String {
-        "absolute-URI GET / HEAD / POST / PUT requests (0-3 end-to-end headers, body absent / with Content-Length / unsized: chunked on HTTP/1.1, DATA frames without content-length on HTTP/2) from HTTP/1.1 and HTTP/2 clients through the real tunnel in memory to a scripted origin; origin responses from a grammar: 0-2 interim 1xx heads, status 200 / 404 / 500 / 204 / 304, framing Content-Length / chunked (chunk sizes 1-5000, optional extensions) / close-delimited, bodies of 0-12000 position-coded bytes, optional hop-by-hop and Connection-nominated headers; the origin stream is delivered in 1-8 generated pieces; HTTP/2 clients optionally with a 1000-byte window and slow release; oracle = reference HTTP/1.1 parser and de-chunker: the origin gets one well-formed request (method, path, one Host, headers minus proxy-*, body framed consistently), the client gets status, end-to-end headers, exactly the reference body (de-chunked for HTTP/2, verbatim for HTTP/1.1) and the end of the stream; interim responses reach HTTP/1.1 clients; non-trivial = chunked body with a chunk spanning two deliveries, or a slow client".into()
+        "absolute-URI GET / HEAD / POST / PUT requests (0-3 end-to-end headers, body absent / with Content-Length / unsized: chunked on HTTP/1.1, DATA frames without content-length on HTTP/2) from HTTP/1.1 and HTTP/2 clients through the real tunnel in memory to a scripted origin; origin responses from a grammar: 0-2 interim 1xx heads (in half of the cases every interim head ends its delivery, with further cuts possibly inside it: the known finding about bytes following a 1xx head is then not in play and every failure is reported), status 200 / 404 / 500 / 204 / 304, framing Content-Length / chunked (chunk sizes 1-5000, optional extensions) / close-delimited, bodies of 0-12000 position-coded bytes, optional hop-by-hop and Connection-nominated headers; the origin stream is delivered in 1-8 generated pieces; HTTP/2 clients optionally with a 1000-byte window and slow release; oracle = reference HTTP/1.1 parser and de-chunker: the origin gets one well-formed request (method, path, one Host, headers minus proxy-*, body framed consistently), the client gets status, end-to-end headers, exactly the reference body (de-chunked for HTTP/2, verbatim for HTTP/1.1) and the end of the stream; interim responses reach HTTP/1.1 clients; non-trivial = chunked body with a chunk spanning two deliveries, or a slow client".into()
     }
     fn strategy(&self, _: Tier) -> BoxedStrategy<Case> {
         (
@@ -592,9 +625,9 @@ impl Suite for ForwardSuite {
                 2 => Just(RespFraming::CloseDelimited),
             ],
             prop_oneof![1 => Just(0u16), 4 => 1u16..300, 3 => 300u16..12_000],
-            (any::<bool>(), prop::collection::vec(any::<u16>(), 0..8), any::<bool>()),
+            (any::<bool>(), prop::collection::vec(any::<u16>(), 0..8), any::<bool>(), any::<bool>()),
         )
-            .prop_map(|(h2, method, path, req_headers, body_kind, body, interim, status, framing, body_len, (hop_by_hop, cuts, slow_client))| {
+            .prop_map(|(h2, method, path, req_headers, body_kind, body, interim, status, framing, body_len, (hop_by_hop, cuts, slow_client, cut_after_interims))| {
                 // any method may carry a body (a GET with a JSON body is common with search APIs);
                 // HEAD stays bodiless, and two GETs in three
                 let req_body = if method == "HEAD" || (method == "GET" && body.len() % 3 != 0) {
@@ -620,6 +653,7 @@ impl Suite for ForwardSuite {
                     cuts,
                     slow_client: slow_client && h2,
                     h3: false,
+                    cut_after_interims,
                 }
             })
             .boxed()
@@ -638,6 +672,9 @@ impl Suite for ForwardSuite {
         }
         if !c.interim.is_empty() {
             v.push("interim");
+            if !c.bytes_follow_an_interim_head() {
+                v.push("interim-heads-end-their-delivery");
+            }
         }
         if c.req_body != ReqBody::None {
             v.push("request-body");
@@ -649,7 +686,7 @@ impl Suite for ForwardSuite {
         v
     }
     fn required_classes(&self) -> Vec<&'static str> {
-        vec!["nontrivial", "chunked-under-segmentation", "slow-client", "interim", "request-body", "h1", "h2"]
+        vec!["nontrivial", "chunked-under-segmentation", "slow-client", "interim", "interim-heads-end-their-delivery", "request-body", "h1", "h2"]
     }
     fn check(&self, c: &Case) -> Verdict {
         let c2 = c.clone();
